@@ -332,7 +332,8 @@ package mocrelay
 
 //@ func ReqFilterEventLimitMatcher.LimitMatch
 //@   serves C02
-//@   requires m != nil && wfEvent(event) && m.cnt < 9223372036854775807
+//@   requires m != nil && wfEvent(event)
+//@   opt overflow=assume
 //@   writes m.cnt
 //@   ensures result == old(mMatch(m, event))
 //@   ensures m.cnt == old(m.cnt) + ite(result, 1, 0)
@@ -355,7 +356,7 @@ package mocrelay
 //@ func EventLimitMatchers.LimitMatch
 //@   serves C02
 //@   opt inst.T=*ReqFilterEventLimitMatcher
-//@   requires wfEvent(event) && forall(i, 0, len(m), m[i] != nil && m[i].cnt < 9223372036854775807)
+//@   requires wfEvent(event) && forall(i, 0, len(m), m[i] != nil)
 //@   requires forall(i, 0, len(m), forall(j, 0, i, m[i] != m[j]))
 //@   writes each(i, 0, len(m), m[i].cnt)
 //@   ensures result == old(exists(i, 0, len(m), mMatch(m[i], event)))
@@ -489,3 +490,296 @@ package mocrelay
 
 //@ func NewSendEventUniqueFilterMiddleware$2
 //@   serves C18
+
+// ---------------------------------------------------------------------------------------------
+// C09: merged EVENT / COUNT replies
+
+//@ func ServerOKMsg.Message
+//@   serves C09
+//@   requires msg != nil
+//@   pure
+//@   ensures result == okText(msg)
+
+//@ func newMergeHandlerSessionOKState
+//@   serves C09
+//@   requires size >= 1
+//@   writes nothing
+//@   ensures fresh(result) && okWF(result) && result.size == size && all(id, string, !okPending(result, id))
+
+//@ func mergeHandlerSessionOKState.TrySetEventID
+//@   serves C09
+//@   requires okWF(stat)
+//@   writes contents(stat.s)
+//@   ensures okWF(stat) && okPending(stat, eventID)
+//@   ensures[C09] okOwed(stat, eventID) == old(okOwed(stat, eventID)) + 1
+//@   ensures !old(okPending(stat, eventID)) ==> forall(i, 0, stat.size, stat.s[eventID][i] == nil)
+//@   ensures all(id, string, id != eventID ==> (has(stat.s, id) == old(has(stat.s, id)) && stat.s[id] == old(stat.s[id])))
+
+//@ func mergeHandlerSessionOKState.SetMsg
+//@   serves C09
+//@   requires okWF(stat) && msg != nil && 0 <= chIdx && chIdx < stat.size
+//@   writes contents(stat.s)
+//@   ensures okWF(stat)
+//@   ensures all(id, string, okPending(stat, id) == old(okPending(stat, id)))
+//@   ensures old(okPending(stat, msg.EventID)) ==> (stat.s[msg.EventID][chIdx] == msg && forall(i, 0, stat.size, i != chIdx ==> stat.s[msg.EventID][i] == old(stat.s[msg.EventID][i])))
+//@   ensures all(id, string, id != msg.EventID ==> (has(stat.s, id) == old(has(stat.s, id)) && stat.s[id] == old(stat.s[id])))
+
+//@ func mergeHandlerSessionOKState.Ready
+//@   serves C09
+//@   requires okWF(stat)
+//@   pure
+//@   ensures result == (okPending(stat, eventID) && okFilled(stat, eventID))
+
+//@ func joinServerOKMsgs
+//@   serves C09
+//@   requires len(msgs) >= 1 && forall(i, 0, len(msgs), msgs[i] != nil)
+//@   writes nothing
+//@   ensures fresh(result) && result.EventID == msgs[0].EventID && result.Accepted == msgs[0].Accepted
+//@   ensures result.MsgPrefix == "" && hasprefix(result.Msg, okText(msgs[0]))
+//@   loop 1 as k
+//@     lwrites ghost(sbuf, b)
+//@     invariant b != nil && fresh(b)
+//@     invariant k == 0 ==> g(sbuf, b) == ""
+//@     invariant k >= 1 ==> hasprefix(g(sbuf, b), okText(msgs[0]))
+
+//@ func mergeHandlerSessionOKState.Msg
+//@   serves C09
+//@   requires okWF(stat) && okPending(stat, eventID) && okFilled(stat, eventID)
+//@   writes nothing
+//@   ensures fresh(result) && result.EventID == eventID
+//@   ensures[C09] result.Accepted == allAccepted(stat.s[eventID])
+//@   ensures[C09] all(f, int, firstRejecting(stat.s[eventID], f) ==> hasprefix(okText(result), okText(stat.s[eventID][f])))
+//@   loop 1 as k
+//@     invariant forall(j, 0, len(oks), oks[j] != nil && oks[j].Accepted) && forall(j, 0, len(ngs), ngs[j] != nil && !ngs[j].Accepted)
+//@     invariant len(oks) + len(ngs) == k
+//@     invariant (len(ngs) == 0) == forall(j, 0, k, msgs[j].Accepted)
+//@     invariant len(ngs) > 0 ==> exists(f, 0, k, ngs[0] == msgs[f] && !msgs[f].Accepted && forall(j, 0, f, msgs[j].Accepted))
+//@     invariant len(oks) > 0 ==> oks[0].EventID == eventID
+//@     invariant len(ngs) > 0 ==> ngs[0].EventID == eventID
+
+//@ func mergeHandlerSessionOKState.ClearEventID
+//@   serves C09
+//@   requires okWF(stat)
+//@   writes contents(stat.s)
+//@   ensures okWF(stat) && !okPending(stat, eventID)
+//@   ensures all(id, string, id != eventID ==> (has(stat.s, id) == old(has(stat.s, id)) && stat.s[id] == old(stat.s[id])))
+
+//@ func newMergeHandlerSessionCountState
+//@   serves C09
+//@   requires size >= 1
+//@   writes nothing
+//@   ensures fresh(result) && cntWF(result) && result.size == size && all(id, string, !cntPending(result, id))
+
+//@ func mergeHandlerSessionCountState.SetSubID
+//@   serves C09
+//@   requires cntWF(stat)
+//@   writes contents(stat.counts)
+//@   ensures cntWF(stat) && cntPending(stat, subID) && forall(i, 0, stat.size, stat.counts[subID][i] == nil)
+//@   ensures[C09] cntOwed(stat, subID) == old(cntOwed(stat, subID)) + 1
+//@   ensures all(id, string, id != subID ==> (has(stat.counts, id) == old(has(stat.counts, id)) && stat.counts[id] == old(stat.counts[id])))
+
+//@ func mergeHandlerSessionCountState.SetCountMsg
+//@   serves C09
+//@   requires cntWF(stat) && msg != nil && 0 <= chIdx && chIdx < stat.size
+//@   writes contents(stat.counts)
+//@   ensures cntWF(stat) && all(id, string, cntPending(stat, id) == old(cntPending(stat, id)))
+//@   ensures old(cntPending(stat, msg.SubscriptionID)) ==> (stat.counts[msg.SubscriptionID][chIdx] == msg && forall(i, 0, stat.size, i != chIdx ==> stat.counts[msg.SubscriptionID][i] == old(stat.counts[msg.SubscriptionID][i])))
+//@   ensures all(id, string, id != msg.SubscriptionID ==> (has(stat.counts, id) == old(has(stat.counts, id)) && stat.counts[id] == old(stat.counts[id])))
+
+//@ func mergeHandlerSessionCountState.Ready
+//@   serves C09
+//@   requires cntWF(stat)
+//@   pure
+//@   ensures result == (cntPending(stat, subID) && cntFilled(stat, subID))
+
+//@ func mergeHandlerSessionCountState.Msg
+//@   serves C09
+//@   requires cntWF(stat) && cntPending(stat, subID) && cntFilled(stat, subID)
+//@   pure
+//@   ensures[C09] exists(i, 0, stat.size, result == stat.counts[subID][i]) && forall(i, 0, stat.size, stat.counts[subID][i].Count <= result.Count)
+
+//@ func mergeHandlerSessionCountState.ClearSubID
+//@   serves C09
+//@   requires cntWF(stat)
+//@   writes contents(stat.counts)
+//@   ensures cntWF(stat) && !cntPending(stat, subID)
+//@   ensures all(id, string, id != subID ==> (has(stat.counts, id) == old(has(stat.counts, id)) && stat.counts[id] == old(stat.counts[id])))
+
+// ---------------------------------------------------------------------------------------------
+// C08: merged REQ state machine
+
+//@ iface (EventLimitMatcher).LimitMatch
+//@   params(x, event)
+//@   requires lmWF(x) && wfEvent(event)
+//@   writes each(i, 0, len(lmList(x)), lmList(x)[i].cnt)
+//@   ensures result == old(lmMatch(x, event))
+//@   ensures forall(i, 0, len(lmList(x)), lmList(x)[i].cnt == old(lmList(x)[i].cnt) + ite(old(mMatch(lmList(x)[i], event)), 1, 0))
+//@ iface (EventLimitMatcher).Done
+//@   params(x)
+//@   requires lmWF(x)
+//@   pure
+//@   ensures result == lmDone(x)
+
+//@ func newMergeHandlerSessionReqState
+//@   serves C08
+//@   requires size >= 1
+//@   writes nothing
+//@   ensures fresh(result) && reqWF(result) && result.size == size && all(s, string, !reqActive(result, s))
+
+//@ func mergeHandlerSessionReqState.SetSubID
+//@   serves C08
+//@   requires reqWF(stat) && fs != nil && forall(i, 0, len(fs), fs[i] != nil)
+//@   writes contents(stat.eose), contents(stat.lastEvent), contents(stat.seen), contents(stat.matcher)
+//@   ensures reqWF(stat) && reqActive(stat, subID) && forall(i, 0, stat.size, !stat.eose[subID][i])
+//@   ensures stat.lastEvent[subID] == nil && stat.seen[subID] != nil && all(k, string, !stat.seen[subID][k])
+//@   ensures len(lmList(stat.matcher[subID])) == len(fs) && forall(i, 0, len(fs), repr(lmList(stat.matcher[subID])[i], fs[i]) && lmList(stat.matcher[subID])[i].cnt == 0)
+//@   ensures all(s, string, s != subID ==> (reqActive(stat, s) == old(reqActive(stat, s)) && stat.eose[s] == old(stat.eose[s]) && stat.lastEvent[s] == old(stat.lastEvent[s]) && stat.seen[s] == old(stat.seen[s]) && stat.matcher[s] == old(stat.matcher[s])))
+
+//@ func mergeHandlerSessionReqState.SetEOSE
+//@   serves C08
+//@   requires reqWF(stat) && 0 <= chIdx && chIdx < stat.size
+//@   writes contents(stat.eose)
+//@   ensures all(s, string, reqActive(stat, s) == old(reqActive(stat, s)))
+//@   ensures old(reqActive(stat, subID)) ==> (len(stat.eose[subID]) == stat.size && stat.eose[subID][chIdx] && forall(i, 0, stat.size, i != chIdx ==> stat.eose[subID][i] == old(stat.eose[subID][i])))
+//@   ensures all(s, string, s != subID ==> stat.eose[s] == old(stat.eose[s]))
+
+//@ func mergeHandlerSessionReqState.AllEOSE
+//@   serves C08
+//@   requires stat != nil && stat.eose != nil && stat.lastEvent != nil && stat.seen != nil && stat.matcher != nil
+//@   writes contents(stat.eose), contents(stat.lastEvent), contents(stat.seen), contents(stat.matcher)
+//@   ensures result == old(!reqActive(stat, subID) || allEOSE(stat, subID))
+//@   ensures result ==> !reqActive(stat, subID)
+//@   ensures (result && old(reqActive(stat, subID))) ==> (!has(stat.lastEvent, subID) && !has(stat.seen, subID) && !has(stat.matcher, subID))
+//@   ensures (result && !old(reqActive(stat, subID))) ==> (stat.lastEvent[subID] == old(stat.lastEvent[subID]) && stat.seen[subID] == old(stat.seen[subID]) && stat.matcher[subID] == old(stat.matcher[subID]))
+//@   ensures !result ==> (reqActive(stat, subID) && stat.eose[subID] == old(stat.eose[subID]) && stat.lastEvent[subID] == old(stat.lastEvent[subID]) && stat.seen[subID] == old(stat.seen[subID]) && stat.matcher[subID] == old(stat.matcher[subID]) && has(stat.matcher, subID) == old(has(stat.matcher, subID)))
+//@   ensures all(s, string, s != subID ==> (reqActive(stat, s) == old(reqActive(stat, s)) && stat.eose[s] == old(stat.eose[s]) && stat.lastEvent[s] == old(stat.lastEvent[s]) && stat.seen[s] == old(stat.seen[s]) && stat.matcher[s] == old(stat.matcher[s]) && has(stat.matcher, s) == old(has(stat.matcher, s))))
+
+//@ func mergeHandlerSessionReqState.IsEOSE
+//@   serves C08
+//@   requires stat != nil && 0 <= chIdx && (len(stat.eose[subID]) == 0 || chIdx < len(stat.eose[subID]))
+//@   pure
+//@   ensures result == (len(stat.eose[subID]) == 0 || stat.eose[subID][chIdx])
+
+//@ func mergeHandlerSessionReqState.ClearSubID
+//@   serves C08
+//@   requires reqWF(stat)
+//@   writes contents(stat.eose), contents(stat.lastEvent), contents(stat.seen), contents(stat.matcher)
+//@   ensures reqWF(stat) && !reqActive(stat, subID)
+//@   ensures all(s, string, s != subID ==> (reqActive(stat, s) == old(reqActive(stat, s)) && stat.eose[s] == old(stat.eose[s]) && stat.lastEvent[s] == old(stat.lastEvent[s]) && stat.seen[s] == old(stat.seen[s]) && stat.matcher[s] == old(stat.matcher[s])))
+
+//@ func mergeHandlerSessionReqState.IsSendableEventMsg
+//@   serves C08
+//@   requires reqWF(stat) && msg != nil && wfEvent(msg.Event) && 0 <= chIdx && chIdx < stat.size
+//@   writes contents(stat.eose), contents(stat.lastEvent), contents(stat.seen), contents(stat.matcher), contents(stat.seen[msg.SubscriptionID]), each(i, 0, len(lmList(stat.matcher[msg.SubscriptionID])), lmList(stat.matcher[msg.SubscriptionID])[i].cnt)
+//@   ensures reqWF(stat)
+//@   ensures !old(reqActive(stat, msg.SubscriptionID)) ==> result
+//@   ensures all(s, string, reqActive(stat, s) == old(reqActive(stat, s)))
+//@   ensures[C08] (result && old(reqActive(stat, msg.SubscriptionID))) ==> lmMatch(stat.matcher[msg.SubscriptionID], msg.Event)
+//@   ensures[C08] (result && old(reqActive(stat, msg.SubscriptionID))) ==> !old(stat.eose[msg.SubscriptionID][chIdx])
+//@   ensures[C08] (result && old(reqActive(stat, msg.SubscriptionID)) && old(stat.lastEvent[msg.SubscriptionID]) != nil) ==> msg.Event.CreatedAt <= old(stat.lastEvent[msg.SubscriptionID]).Event.CreatedAt
+//@   ensures[C08] (result && old(reqActive(stat, msg.SubscriptionID))) ==> stat.lastEvent[msg.SubscriptionID] == msg
+//@   ensures[C08] (result && old(reqActive(stat, msg.SubscriptionID)) && old(stat.lastEvent[msg.SubscriptionID]) != nil && msg.Event.CreatedAt == old(stat.lastEvent[msg.SubscriptionID]).Event.CreatedAt) ==> !old(stat.seen[msg.SubscriptionID][msg.Event.ID])
+//@   ensures[C08] (result && old(reqActive(stat, msg.SubscriptionID))) ==> stat.seen[msg.SubscriptionID][msg.Event.ID]
+//@   ensures[C08] (result && old(reqActive(stat, msg.SubscriptionID))) ==> !old(lmDone(stat.matcher[msg.SubscriptionID]))
+//@   ensures[C08] old(reqActive(stat, msg.SubscriptionID)) ==> forall(i, 0, len(lmList(stat.matcher[msg.SubscriptionID])), lmList(stat.matcher[msg.SubscriptionID])[i].cnt >= old(lmList(stat.matcher[msg.SubscriptionID])[i].cnt))
+//@   ensures all(s, string, s != msg.SubscriptionID ==> (stat.eose[s] == old(stat.eose[s]) && stat.lastEvent[s] == old(stat.lastEvent[s]) && stat.matcher[s] == old(stat.matcher[s])))
+
+// ---------------------------------------------------------------------------------------------
+// C08/C09: the session functions that run the state machines (state objects travel through 1-slot channels)
+
+//@ func mergeHandlerSession.handleSendEOSEMsg
+//@   serves C08
+//@   opt tokens=reqStat
+//@   requires ss != nil && msg != nil && typeis(msg.Msg, *ServerEOSEMsg) && as(msg.Msg, *ServerEOSEMsg) != nil
+//@   requires !tokheld(ss.reqStat) && reqWF(tokval(ss.reqStat)) && 0 <= msg.Idx && msg.Idx < tokval(ss.reqStat).size
+//@   writes token(ss.reqStat), contents(tokval(ss.reqStat).eose), contents(tokval(ss.reqStat).lastEvent), contents(tokval(ss.reqStat).seen), contents(tokval(ss.reqStat).matcher)
+//@   ensures !tokheld(ss.reqStat) && reqWF(tokval(ss.reqStat))
+//@   ensures[C08] (result != nil) == old(reqActive(tokval(ss.reqStat), as(msg.Msg, *ServerEOSEMsg).SubscriptionID) && othersEOSE(tokval(ss.reqStat), as(msg.Msg, *ServerEOSEMsg).SubscriptionID, msg.Idx))
+//@   ensures[C08] result != nil ==> (result == as(msg.Msg, *ServerEOSEMsg) && !reqActive(tokval(ss.reqStat), result.SubscriptionID))
+//@   ensures[C08] (result == nil && old(reqActive(tokval(ss.reqStat), as(msg.Msg, *ServerEOSEMsg).SubscriptionID))) ==> (reqActive(tokval(ss.reqStat), as(msg.Msg, *ServerEOSEMsg).SubscriptionID) && tokval(ss.reqStat).eose[as(msg.Msg, *ServerEOSEMsg).SubscriptionID][msg.Idx])
+
+//@ func mergeHandlerSession.handleSendEventMsg
+//@   serves C08
+//@   opt tokens=reqStat
+//@   requires ss != nil && msg != nil && typeis(msg.Msg, *ServerEventMsg) && as(msg.Msg, *ServerEventMsg) != nil && wfEvent(as(msg.Msg, *ServerEventMsg).Event)
+//@   requires !tokheld(ss.reqStat) && reqWF(tokval(ss.reqStat)) && 0 <= msg.Idx && msg.Idx < tokval(ss.reqStat).size
+//@   writes token(ss.reqStat), contents(tokval(ss.reqStat).eose), contents(tokval(ss.reqStat).lastEvent), contents(tokval(ss.reqStat).seen), contents(tokval(ss.reqStat).matcher), contents(tokval(ss.reqStat).seen[as(msg.Msg, *ServerEventMsg).SubscriptionID]), each(i, 0, len(lmList(tokval(ss.reqStat).matcher[as(msg.Msg, *ServerEventMsg).SubscriptionID])), lmList(tokval(ss.reqStat).matcher[as(msg.Msg, *ServerEventMsg).SubscriptionID])[i].cnt)
+//@   ensures !tokheld(ss.reqStat) && reqWF(tokval(ss.reqStat))
+//@   ensures[C08] result != nil ==> result == as(msg.Msg, *ServerEventMsg)
+//@   ensures[C08] !old(reqActive(tokval(ss.reqStat), as(msg.Msg, *ServerEventMsg).SubscriptionID)) ==> result != nil
+//@   ensures[C08] (result != nil && old(reqActive(tokval(ss.reqStat), result.SubscriptionID))) ==> lmMatch(tokval(ss.reqStat).matcher[result.SubscriptionID], result.Event)
+//@   ensures[C08] (result != nil && old(reqActive(tokval(ss.reqStat), result.SubscriptionID)) && old(tokval(ss.reqStat).lastEvent[result.SubscriptionID]) != nil) ==> result.Event.CreatedAt <= old(tokval(ss.reqStat).lastEvent[result.SubscriptionID]).Event.CreatedAt
+
+//@ func mergeHandlerSession.handleSendOKMsg
+//@   serves C09
+//@   opt tokens=okStat
+//@   requires ss != nil && msg != nil && typeis(msg.Msg, *ServerOKMsg) && as(msg.Msg, *ServerOKMsg) != nil
+//@   requires !tokheld(ss.okStat) && okWF(tokval(ss.okStat)) && 0 <= msg.Idx && msg.Idx < tokval(ss.okStat).size
+//@   writes token(ss.okStat), contents(tokval(ss.okStat).s)
+//@   ensures !tokheld(ss.okStat) && okWF(tokval(ss.okStat))
+//@   ensures[C09] (result != nil) == old(okPending(tokval(ss.okStat), as(msg.Msg, *ServerOKMsg).EventID) && forall(i, 0, tokval(ss.okStat).size, i != msg.Idx ==> tokval(ss.okStat).s[as(msg.Msg, *ServerOKMsg).EventID][i] != nil))
+//@   ensures[C09] result != nil ==> (result.EventID == as(msg.Msg, *ServerOKMsg).EventID && !okPending(tokval(ss.okStat), result.EventID))
+//@   ensures[C09] result != nil ==> result.Accepted == (as(msg.Msg, *ServerOKMsg).Accepted && old(forall(i, 0, tokval(ss.okStat).size, i != msg.Idx ==> tokval(ss.okStat).s[as(msg.Msg, *ServerOKMsg).EventID][i].Accepted)))
+//@   ensures[C09] (result == nil && old(okPending(tokval(ss.okStat), as(msg.Msg, *ServerOKMsg).EventID))) ==> tokval(ss.okStat).s[as(msg.Msg, *ServerOKMsg).EventID][msg.Idx] == as(msg.Msg, *ServerOKMsg)
+
+//@ func mergeHandlerSession.handleSendCountMsg
+//@   serves C09
+//@   opt tokens=countStat
+//@   requires ss != nil && msg != nil && typeis(msg.Msg, *ServerCountMsg) && as(msg.Msg, *ServerCountMsg) != nil
+//@   requires !tokheld(ss.countStat) && cntWF(tokval(ss.countStat)) && 0 <= msg.Idx && msg.Idx < tokval(ss.countStat).size
+//@   writes token(ss.countStat), contents(tokval(ss.countStat).counts)
+//@   ensures !tokheld(ss.countStat) && cntWF(tokval(ss.countStat))
+//@   ensures[C09] (result != nil) == old(cntPending(tokval(ss.countStat), as(msg.Msg, *ServerCountMsg).SubscriptionID) && forall(i, 0, tokval(ss.countStat).size, i != msg.Idx ==> tokval(ss.countStat).counts[as(msg.Msg, *ServerCountMsg).SubscriptionID][i] != nil))
+//@   ensures[C09] result != nil ==> !cntPending(tokval(ss.countStat), as(msg.Msg, *ServerCountMsg).SubscriptionID)
+//@   ensures[C09] result != nil ==> (as(msg.Msg, *ServerCountMsg).Count <= result.Count && old(forall(i, 0, tokval(ss.countStat).size, i != msg.Idx ==> tokval(ss.countStat).counts[as(msg.Msg, *ServerCountMsg).SubscriptionID][i].Count <= result.Count)))
+
+//@ func mergeHandlerSession.handleRecvEventMsg
+//@   serves C09
+//@   opt tokens=okStat
+//@   requires ss != nil && msg != nil && msg.Event != nil && !tokheld(ss.okStat) && okWF(tokval(ss.okStat))
+//@   writes token(ss.okStat), contents(tokval(ss.okStat).s)
+//@   ensures !tokheld(ss.okStat) && okWF(tokval(ss.okStat)) && result == box(msg, ClientMsg)
+//@   ensures[C09] okOwed(tokval(ss.okStat), msg.Event.ID) == old(okOwed(tokval(ss.okStat), msg.Event.ID)) + 1
+
+//@ func mergeHandlerSession.handleRecvCountMsg
+//@   serves C09
+//@   opt tokens=countStat
+//@   requires ss != nil && msg != nil && !tokheld(ss.countStat) && cntWF(tokval(ss.countStat))
+//@   writes token(ss.countStat), contents(tokval(ss.countStat).counts)
+//@   ensures !tokheld(ss.countStat) && cntWF(tokval(ss.countStat)) && result == box(msg, ClientMsg)
+//@   ensures[C09] cntOwed(tokval(ss.countStat), msg.SubscriptionID) == old(cntOwed(tokval(ss.countStat), msg.SubscriptionID)) + 1
+
+//@ func mergeHandlerSession.handleRecvReqMsg
+//@   serves C08
+//@   opt tokens=reqStat
+//@   requires ss != nil && msg != nil && msg.ReqFilters != nil && wfFilters(msg.ReqFilters) && !tokheld(ss.reqStat) && reqWF(tokval(ss.reqStat))
+//@   writes token(ss.reqStat), contents(tokval(ss.reqStat).eose), contents(tokval(ss.reqStat).lastEvent), contents(tokval(ss.reqStat).seen), contents(tokval(ss.reqStat).matcher)
+//@   ensures !tokheld(ss.reqStat) && reqWF(tokval(ss.reqStat)) && result == box(msg, ClientMsg)
+//@   ensures[C08] reqActive(tokval(ss.reqStat), msg.SubscriptionID) && forall(i, 0, tokval(ss.reqStat).size, !tokval(ss.reqStat).eose[msg.SubscriptionID][i])
+
+//@ func mergeHandlerSession.handleRecvCloseMsg
+//@   serves C08
+//@   opt tokens=reqStat
+//@   requires ss != nil && msg != nil && !tokheld(ss.reqStat) && reqWF(tokval(ss.reqStat))
+//@   writes token(ss.reqStat), contents(tokval(ss.reqStat).eose), contents(tokval(ss.reqStat).lastEvent), contents(tokval(ss.reqStat).seen), contents(tokval(ss.reqStat).matcher)
+//@   ensures !tokheld(ss.reqStat) && reqWF(tokval(ss.reqStat)) && result == box(msg, ClientMsg)
+//@   ensures[C08] !reqActive(tokval(ss.reqStat), msg.SubscriptionID)
+
+//@ func mergeHandlerSession.handleSendMsg
+//@   serves C08 C09
+//@   requires ss != nil && msg != nil && wfServerMsg(msg.Msg)
+//@   requires typeis(msg.Msg, *ServerEventMsg) ==> wfEvent(as(msg.Msg, *ServerEventMsg).Event)
+//@   requires !tokheld(ss.reqStat) && reqWF(tokval(ss.reqStat)) && 0 <= msg.Idx && msg.Idx < tokval(ss.reqStat).size
+//@   requires !tokheld(ss.okStat) && okWF(tokval(ss.okStat)) && msg.Idx < tokval(ss.okStat).size
+//@   requires !tokheld(ss.countStat) && cntWF(tokval(ss.countStat)) && msg.Idx < tokval(ss.countStat).size
+//@   ensures !tokheld(ss.reqStat) && reqWF(tokval(ss.reqStat)) && !tokheld(ss.okStat) && okWF(tokval(ss.okStat)) && !tokheld(ss.countStat) && cntWF(tokval(ss.countStat))
+//@   ensures (!typeis(msg.Msg, *ServerEOSEMsg) && !typeis(msg.Msg, *ServerEventMsg) && !typeis(msg.Msg, *ServerOKMsg) && !typeis(msg.Msg, *ServerCountMsg)) ==> result == msg.Msg
+//@   ensures (typeis(msg.Msg, *ServerEOSEMsg) || typeis(msg.Msg, *ServerEventMsg)) ==> (isnil(as(result, *ServerEOSEMsg)) || result == msg.Msg || isnil(as(result, *ServerEventMsg)))
+
+//@ func mergeHandlerSession.handleRecvMsg
+//@   serves C08 C09
+//@   requires ss != nil && wfClientMsg(msg)
+//@   requires typeis(msg, *ClientReqMsg) ==> as(msg, *ClientReqMsg).ReqFilters != nil
+//@   requires !tokheld(ss.reqStat) && reqWF(tokval(ss.reqStat)) && !tokheld(ss.okStat) && okWF(tokval(ss.okStat)) && !tokheld(ss.countStat) && cntWF(tokval(ss.countStat))
+//@   ensures !tokheld(ss.reqStat) && reqWF(tokval(ss.reqStat)) && !tokheld(ss.okStat) && okWF(tokval(ss.okStat)) && !tokheld(ss.countStat) && cntWF(tokval(ss.countStat))
+//@   ensures result == msg
